@@ -187,6 +187,12 @@ def index_form(d, bv: tuple):
         return ("range", ZERO, length_of(T)), subscript(T, bv)
     if isinstance(d, tuple) and d and d[0] == "dom":
         return index_form(d[1], bv)
+    if isinstance(d, tuple) and d and d[0] == "zip" and len(d) >= 3:
+        # zip(A, B, ..) of equally long sequences: index loop over the first with element (A[i], B[i], ..)
+        parts = [index_form(x, bv) for x in d[1:]]
+        if all(isinstance(dm, tuple) and dm and dm[0] == "range" and dm[1] == ZERO for dm, _ in parts):
+            return parts[0][0], atom_poly(("tuple", tuple(e for _, e in parts)))
+        return d, bv
     if isinstance(d, tuple) and d and d[0] == "enumerate":
         inner, elem = index_form(d[1], bv)
         if isinstance(inner, tuple) and inner[0] == "range" and inner[1] == ZERO:
@@ -218,6 +224,11 @@ def norm_iter(t: tuple) -> tuple:
     while a is not None and a[0] == "call" and ((a[1] in ("list", "tuple", "iter") and len(a[2]) == 1) or (a[1] == ".keys" and len(a[2]) == 1)):
         t = a[2][0]
         a = single_atom(t)
+    if a is not None and a[0] == "dictacc" and len(a) == 2 and len(a[1]) == 1 and a[1][0][0] == "set" and len(a[1][0][3]) == 1 and not a[1][0][3][0][2]:
+        # iterating {K(v): .. for v in D} visits the keys K(v), v in D (distinct keys: every such table in the
+        # package is keyed by the elements of a product / a support list)
+        kind, key, val, ctx = a[1][0]
+        return norm_iter(atom_poly(("seq", key, ctx[0][0], ctx[0][1])))
     if a is not None and a[0] == "seq" and single_atom(a[1]) == ("sym", f"#{a[3]}"):
         return ("dom", a[2])  # [v for v in D] iterates D
     return t
@@ -549,7 +560,7 @@ class Translator:
         if isinstance(n.op, ast.UAdd):
             return v
         if isinstance(n.op, ast.Not):
-            return atom_poly(("not", v))
+            return mk_not(v)
         return self.opaque(n)
 
     def t_BinOp(self, n):
@@ -584,11 +595,13 @@ class Translator:
 
     def t_Compare(self, n):
         if len(n.ops) == 1:
-            return atom_poly(("cmp", type(n.ops[0]).__name__, self.tr(n.left), self.tr(n.comparators[0])))
-        return self.opaque(n)
+            return mk_cmp(type(n.ops[0]).__name__, self.tr(n.left), self.tr(n.comparators[0]))
+        # a OP b OP c  =  (a OP b) and (b OP c)   (the middle operand is a pure term here)
+        terms = [self.tr(n.left)] + [self.tr(c) for c in n.comparators]
+        return mk_bool("And", tuple(mk_cmp(type(o).__name__, terms[i], terms[i + 1]) for i, o in enumerate(n.ops)))
 
     def t_BoolOp(self, n):
-        return atom_poly(("bool", type(n.op).__name__, tuple(self.tr(v) for v in n.values)))
+        return mk_bool(type(n.op).__name__, tuple(self.tr(v) for v in n.values))
 
     def t_IfExp(self, n):
         return atom_poly(("ifexp", self.tr(n.test), self.tr(n.body), self.tr(n.orelse)))
@@ -631,7 +644,15 @@ class Translator:
             if r is not None:
                 return r
         if name == "len" and len(args) == 1 and not kw:
-            return length_of(self.tr(args[0]))
+            a0 = args[0]
+            if isinstance(a0, ast.Attribute) and a0.attr in ("nodes", "edges"):
+                a0 = ast.copy_location(ast.Call(func=a0, args=[], keywords=[]), a0)   # len(G.edges) = len(G.edges())
+            return length_of(self.tr(a0))
+        if isinstance(n.func, ast.Attribute) and not args and not kw and n.func.attr in ("number_of_edges", "number_of_nodes", "order"):
+            # networkx synonyms: G.number_of_edges() = len(G.edges()), G.number_of_nodes() = G.order() = len(G.nodes())
+            view = "edges" if n.func.attr == "number_of_edges" else "nodes"
+            inner = ast.Call(func=ast.Attribute(value=n.func.value, attr=view, ctx=ast.Load()), args=[], keywords=[])
+            return length_of(self.tr(ast.fix_missing_locations(ast.copy_location(inner, n))))
         if name in ("abs", "np.abs", "numpy.abs", "math.fabs", "np.fabs") and len(args) == 1:
             return atom_poly(("call", "abs", (self.tr(args[0]),)))
         if name in ("list", "tuple") and len(args) == 1 and not kw:
@@ -644,6 +665,16 @@ class Translator:
             if ia is not None and ia[0] == "call" and ia[1] == ".keys" and len(ia[2]) == 1:
                 inner = ia[2][0]  # list(d.keys()) = list(d)
             return atom_poly(("call", name, (inner,)))
+        if name == "dict" and len(args) == 1 and not kw:
+            inner = single_atom(self.tr(args[0]))
+            if inner is not None and inner[0] == "seq":
+                body = single_atom(inner[1])
+                dom, conds = inner[2], ()
+                if isinstance(dom, tuple) and dom and dom[0] == "filter":
+                    dom, conds = dom[1], tuple(dom[2])
+                if body is not None and body[0] == "tuple" and len(body[1]) == 2:
+                    # dict((k, v) for ...) = {k: v for ...}
+                    return atom_poly(("dictacc", (("set", body[1][0], body[1][1], ((dom, inner[3], conds),)),)))
         targs = tuple(self.tr(a) for a in args)
         if not isinstance(n.func, (ast.Name, ast.Attribute)):
             # call of a computed callee, e.g. a callback table entry self._arr_fp[i](deg)
@@ -723,7 +754,7 @@ class Translator:
         dom, elem, level = self.domain_elem(g.iter, level)
         inner = self.child(self.bind(g.target, level, elem))
         if g.ifs:
-            dom = ("filter", dom, tuple(inner.tr(c) for c in g.ifs))
+            dom = ("filter", dom, norm_conds(inner.tr(c) for c in g.ifs))
         if len(gens) > 1:
             body = inner.comp_reduction(op, elt, gens[1:])
         else:
@@ -752,7 +783,7 @@ class Translator:
         dom, elem, level = self.domain_elem(g.iter, level)
         inner = self.child(self.bind(g.target, level, elem))
         if g.ifs:
-            dom = ("filter", dom, tuple(inner.tr(c) for c in g.ifs))
+            dom = ("filter", dom, norm_conds(inner.tr(c) for c in g.ifs))
         if len(n.generators) > 1:
             return self.opaque(n)
         return atom_poly(("seq", inner.tr(n.elt), dom, level))
@@ -766,7 +797,7 @@ class Translator:
         level = self._level()
         dom, elem, level = self.domain_elem(g.iter, level)
         inner = self.child(self.bind(g.target, level, elem))
-        conds = tuple(inner.tr(c) for c in g.ifs)
+        conds = norm_conds(inner.tr(c) for c in g.ifs)
         return atom_poly(("dictacc", (("set", inner.tr(n.key), inner.tr(n.value), ((dom, level, conds),)),)))
 
     def t_JoinedStr(self, n):
@@ -777,6 +808,186 @@ class Translator:
             elif isinstance(v, ast.FormattedValue):
                 parts.append(("fmt", self.tr(v.value), v.conversion, astx.txt(v.format_spec) if v.format_spec else ""))
         return atom_poly(("fstr", tuple(parts)))
+
+
+# ----------------------------------------------------------------------------- boolean normal form
+_CMP_NEG = {"Eq": "NotEq", "NotEq": "Eq", "Lt": "GtE", "GtE": "Lt", "Gt": "LtE", "LtE": "Gt", "In": "NotIn", "NotIn": "In", "Is": "IsNot", "IsNot": "Is"}
+
+
+def mk_cmp(op: str, a: tuple, b: tuple) -> tuple:
+    """Comparisons are oriented (> and >= become < and <=) and symmetric ones have their operands sorted, so the
+    spelling `0 < n` / `n > 0` and `a == b` / `b == a` coincide."""
+    if op == "Gt":
+        op, a, b = "Lt", b, a
+    elif op == "GtE":
+        op, a, b = "LtE", b, a
+    if op in ("Eq", "NotEq", "Is", "IsNot") and _key(b) < _key(a):
+        a, b = b, a
+    return atom_poly(("cmp", op, a, b))
+
+
+def _literal(t: tuple):
+    """(positive atom, sign) of a non-compound boolean term."""
+    a = single_atom(t)
+    if a is not None and a[0] == "not":
+        p, sg = _literal(a[1])
+        return p, not sg
+    if a is not None and a[0] == "cmp" and len(a) == 4:
+        op, x, y = a[1], a[2], a[3]
+        if op in ("NotEq", "NotIn", "IsNot"):
+            return atom_poly(("cmp", _CMP_NEG[op], x, y)), False
+        if op in ("Lt", "LtE") and _key(y) < _key(x):
+            # Lt(x, y) = not LtE(y, x): the positive form is the one whose first operand sorts first
+            return atom_poly(("cmp", "LtE" if op == "Lt" else "Lt", y, x)), False
+    return t, True
+
+
+def _neg_literal(t: tuple) -> tuple:
+    a = single_atom(t)
+    if a is not None and a[0] == "not":
+        return a[1]
+    if a is not None and a[0] == "cmp" and a[1] in _CMP_NEG:
+        return mk_cmp(_CMP_NEG[a[1]], a[2], a[3])
+    return atom_poly(("not", t))
+
+
+def _formula(t: tuple):
+    a = single_atom(t)
+    if a is not None and a[0] == "bool" and len(a) == 3:
+        return ("and" if a[1] == "And" else "or", [_formula(x) for x in a[2]])
+    if a is not None and a[0] == "not":
+        b = single_atom(a[1])
+        if b is not None and b[0] == "bool":
+            return ("not", _formula(a[1]))
+    if a is not None and a[0] == "boolconst":
+        return ("const", a[1])
+    c = is_const(t)
+    if c is not None and c in (0, 1) and False:
+        return ("const", bool(c))
+    p, sg = _literal(t)
+    return ("lit", p, sg)
+
+
+def _eval(f, val) -> bool:
+    k = f[0]
+    if k == "lit":
+        return val[f[1]] == f[2]
+    if k == "const":
+        return f[1]
+    if k == "not":
+        return not _eval(f[1], val)
+    if k == "and":
+        return all(_eval(x, val) for x in f[1])
+    return any(_eval(x, val) for x in f[1])
+
+
+def _atoms_of(f, out):
+    if f[0] == "lit":
+        if f[1] not in out:
+            out.append(f[1])
+    elif f[0] == "not":
+        _atoms_of(f[1], out)
+    elif f[0] in ("and", "or"):
+        for x in f[1]:
+            _atoms_of(x, out)
+
+
+MAX_BOOL_ATOMS = 7
+
+
+def bool_canon(t: tuple) -> tuple:
+    """Canonical form of a propositional combination (and / or / not over comparisons and other terms, which are
+    taken as independent atoms): the disjunction of ALL prime implicants (Blake canonical form), which is unique for
+    the boolean function - so any two equivalent spellings of a condition coincide:  `A or (not A and not B)` =
+    `A or not B`, De Morgan, absorption, `not (a and b)` = `not a or not b`."""
+    f = _formula(t)
+    if f[0] == "lit":
+        return f[1] if f[2] else _neg_literal(f[1])
+    atoms: list = []
+    _atoms_of(f, atoms)
+    atoms.sort(key=_key)
+    n = len(atoms)
+    if n > MAX_BOOL_ATOMS:
+        return t
+    minterms = []
+    for bits in range(1 << n):
+        val = {a: bool((bits >> i) & 1) for i, a in enumerate(atoms)}
+        if _eval(f, val):
+            minterms.append(bits)
+    if not minterms:
+        return atom_poly(("boolconst", False))
+    if len(minterms) == 1 << n:
+        return atom_poly(("boolconst", True))
+    # Quine-McCluskey: implicants as (value, mask) with mask bits = don't care
+    cur = {(m, 0) for m in minterms}
+    primes = set()
+    while cur:
+        used = set()
+        nxt = set()
+        lst = sorted(cur)
+        for i, (v1, m1) in enumerate(lst):
+            for v2, m2 in lst[i + 1:]:
+                if m1 != m2:
+                    continue
+                d = v1 ^ v2
+                if d and d & (d - 1) == 0:
+                    nxt.add((v1 & ~d, m1 | d))
+                    used.add((v1, m1))
+                    used.add((v2, m2))
+        primes |= cur - used
+        cur = nxt
+    terms = []
+    for v, m in primes:
+        lits = []
+        for i, a in enumerate(atoms):
+            if (m >> i) & 1:
+                continue
+            lits.append(a if (v >> i) & 1 else _neg_literal(a))
+        lits.sort(key=_key)
+        terms.append(lits[0] if len(lits) == 1 else atom_poly(("bool", "And", tuple(lits))))
+    terms.sort(key=_key)
+    if len(terms) == 1:
+        return terms[0]
+    return atom_poly(("bool", "Or", tuple(terms)))
+
+
+def mk_not(v: tuple) -> tuple:
+    """Negation, canonicalised (see bool_canon)."""
+    a = single_atom(v)
+    if a is not None and a[0] == "boolconst":
+        return atom_poly(("boolconst", not a[1]))
+    if a is not None and a[0] == "bool":
+        return bool_canon(atom_poly(("not", v)))
+    return _neg_literal(v)
+
+
+def mk_bool(op: str, values) -> tuple:
+    """and / or, canonicalised (see bool_canon)."""
+    values = tuple(values)
+    if len(values) == 1:
+        return bool_canon(values[0])
+    return bool_canon(atom_poly(("bool", op, values)))
+
+
+def exclusive(c1, c2) -> bool:
+    """The condition lists (conjunctions) c1 and c2 cannot hold together (propositionally)."""
+    both = mk_bool("And", tuple(c1) + tuple(c2))
+    a = single_atom(both)
+    return a is not None and a[0] == "boolconst" and a[1] is False
+
+
+def norm_conds(conds) -> tuple:
+    """A list of conditions means their conjunction: canonicalised as one formula, then split at the top-level and."""
+    conds = tuple(conds)
+    if not conds:
+        return ()
+    c = mk_bool("And", conds)
+    a = single_atom(c)
+    if a is not None and a[0] == "boolconst" and a[1] is True:
+        return ()
+    if a is not None and a[0] == "bool" and a[1] == "And":
+        return tuple(a[2])
+    return (c,)
 
 
 def make_reduce(op: str, body: tuple, dom, level: int) -> tuple:
@@ -934,6 +1145,8 @@ def canon(x, depth: int = 0):
                 t = mul(t, power(canon_atom(at, depth), canon(e, depth)))
             out = add(out, t)
         return out
+    if isinstance(x, tuple) and len(x) == 3 and x[0] == "filter" and isinstance(x[2], tuple):
+        return ("filter", canon(x[1], depth), norm_conds(canon(c, depth) for c in x[2]))
     if isinstance(x, tuple):
         return tuple(canon(y, depth) for y in x)
     return x
@@ -965,11 +1178,21 @@ def canon_atom(at: tuple, depth: int) -> tuple:
                     later[2] = rename_bound(tuple(later[2]), old, new)
                 fr[1] = d
                 d += 1
-            ctx2 = tuple((canon(fr[0], d), fr[1], tuple(sorted((canon(c, d) for c in fr[2]), key=_key))) for fr in frames)
-            ents.append((kind, canon(key, d), canon(val, d), ctx2))
+            ctx2 = tuple((canon(fr[0], d), fr[1], norm_conds(canon(c, d) for c in fr[2])) for fr in frames)
+            e_new = (kind, canon(key, d), canon(val, d), ctx2)
+            if kind == "set":
+                # D[k] = a ... D[k] = b over the same iteration: the later store wins
+                ents = [e for e in ents if not (e[0] == "set" and e[1] == e_new[1] and e[3] == e_new[3])]
+            ents.append(e_new)
         ents.sort(key=_key)
         rest = tuple(canon(y, depth) for y in at[2:])
         return atom_poly(("dictacc", tuple(ents)) + rest)
+    if at[0] == "cmp" and len(at) == 4:
+        return mk_cmp(at[1], canon(at[2], depth), canon(at[3], depth))
+    if at[0] == "bool" and len(at) == 3:
+        return mk_bool(at[1], tuple(canon(y, depth) for y in at[2]))
+    if at[0] == "not" and len(at) == 2:
+        return mk_not(canon(at[1], depth))
     return atom_poly((at[0],) + tuple(canon(y, depth) for y in at[1:]))
 
 
